@@ -186,6 +186,9 @@ def check_resolver_shape(res: Result, repo):
         res.fail(rule, finding("C20", rule, rbc, rbc.node, "reading_by_candle no longer resolves dotted names / candle fields", construct="reading_by_candle: dotted + getattr"))
 
 
+from ..framework_rules import check_active_cursor, check_name_sanitised
+
+
 @register("C20")
 def run(repo, tier) -> Result:
     res = Result("C20", tier)
@@ -298,4 +301,7 @@ def run(repo, tier) -> Result:
     res.rule("R-FUNNEL", floor=13)
     res.rule("R-CONTRACT", floor=12)
     res.rule("R-TRUTH", floor=15)
+    # default position of reading()/prev_reading()/has_reading after calculate() is the newest candle; names never contain the separator
+    check_active_cursor("C20", res, repo)
+    check_name_sanitised("C20", res, repo)
     return res
